@@ -1153,18 +1153,19 @@ fn _update_tx_pool_for_reorg(
                     })
             })
             .filter_map(|entry| {
-                let status = match entry.status {
-                    Status::Pending => TxStatus::Fresh,
-                    Status::Gap => TxStatus::Gap,
-                    Status::Proposed => TxStatus::Proposed,
+                // the earliest block the new chain can commit the entry in: the next one for a
+                // proposed entry, the one after it for an entry in the gap
+                let closest = snapshot.consensus().tx_proposal_window().closest();
+                let tx_env = match entry.status {
+                    Status::Pending => TxVerifyEnv::new_submit(tip_header),
+                    Status::Gap => TxVerifyEnv::new_proposed(tip_header, closest.saturating_sub(2)),
+                    Status::Proposed => {
+                        TxVerifyEnv::new_proposed(tip_header, closest.saturating_sub(1))
+                    }
                 };
-                time_relative_verify(
-                    Arc::clone(&snapshot),
-                    Arc::clone(&entry.inner.rtx),
-                    status.with_env(tip_header),
-                )
-                .err()
-                .map(|reject| (entry.inner.proposal_short_id(), reject))
+                time_relative_verify(Arc::clone(&snapshot), Arc::clone(&entry.inner.rtx), tx_env)
+                    .err()
+                    .map(|reject| (entry.inner.proposal_short_id(), reject))
             })
             .collect();
         for (id, reject) in immature {
